@@ -36,7 +36,7 @@ CLAIMS = {
         "original. C11_reachable_roundtrip: for EVERY command history (earlier restarts included), if every service of the reached state is "
         "Restorable, the list restored from the state file is the list in force (same order, every field) and no continuation tells the "
         "restarted proxy from the original; by C11_list_roundtrip + the reachable-state invariant inv_runCore (unique names, normalised "
-        "prefixes, TLS flags in sync, also in the file). The hypothesis is necessary: the unconditional C11_full is FALSE on the pinned "
+        "prefixes, TLS flags in sync, also in the file); C11_reachable_roundtrip_min: pause controllers and target names are sound in every reachable state, so the hypothesis reduces to Service.initialize succeeding again with the same certificate-manager decision and no empty rollout list. The hypothesis is necessary: the unconditional C11_full is FALSE on the pinned "
         "tree (theorem C11_full_is_false, finding F21, reproduced on the real code on every run). Correspondence: "
         "a real restart (new Router + RestoreLastSavedState on the same file) at a random point of every history, all later observations compared.",
    note=TB + "encoding/json is modelled (field list tied by the state-file key comparison). The theorem is conditional on Restorable, which F21 histories violate (known finding)."),
